@@ -31,6 +31,7 @@ pub fn run(args: &Args) -> i32 {
     let per_thread = if tiny { 40 } else { args.tier.pick(60_000usize, 1_500_000) };
     let rounds = if tiny { 2 } else { args.tier.pick(4, 8) };
     let peer = PeerId::random();
+    sequential_phase(&check, args.seed, if tiny { 3 } else { args.tier.pick(300, 6_000) });
     for round in 0..rounds {
         let all: Arc<Mutex<Vec<Vec<(ConnectionId, u64)>>>> = Arc::new(Mutex::new(vec![]));
         let barrier = Arc::new(Barrier::new(threads));
@@ -117,4 +118,72 @@ pub fn run(args: &Args) -> i32 {
     }
     check.note("threads", json!(threads));
     check.finish()
+}
+
+/// Single-threaded phase: nothing else allocates in between, so an id that is "given back" after a refused or failed
+/// connection would be handed out again by the very next allocation. Swarm pairs whose behaviours deny at PRNG-chosen
+/// decision points, dials to refused / unsupported addresses, closes; every allocation (DialOpts built by the harness,
+/// `IncomingConnection` events) goes into one set.
+fn sequential_phase(check: &Check, seed: u64, pairs: u64) {
+    use vnet::Point;
+    let mut seen: HashMap<ConnectionId, String> = HashMap::new();
+    let mut total = 0u64;
+    let mut denied_total = 0u64;
+    for case in 0..pairs {
+        let mut rng = Rng::for_case(seed ^ 0x5e9, case);
+        let mut net: Net<Probe> = Net::new(rng.next_u64(), false);
+        let mut ctls = vec![];
+        for i in 0..2 {
+            let (p, c) = Probe::new(i as u8);
+            net.add_node(vnet::keypair(rng.next_u64()), move |_, _| p, |c| c);
+            net.swarm(i).listen_on(mem(100 + i as u64)).unwrap();
+            ctls.push(c);
+        }
+        for c in &ctls {
+            let mut r = Rng::new(rng.next_u64());
+            let pt = *rng.pick(&[Point::PendingInbound, Point::PendingOutbound, Point::EstablishedInbound, Point::EstablishedOutbound]);
+            c.with(|p| p.deny_fn = Some(Box::new(move |q, _, _| q == pt && r.chance(1, 2))));
+        }
+        let allocs = std::cell::RefCell::new(Vec::<(ConnectionId, String)>::new());
+        let denied = std::cell::Cell::new(0u64);
+        let announced = std::cell::RefCell::new(std::collections::HashSet::<ConnectionId>::new());
+        let mut sink = |_: &mut Net<Probe>, i: usize, ev: SwarmEvent<ProbeEvent>| match ev {
+            SwarmEvent::IncomingConnection { connection_id, .. } => {
+                announced.borrow_mut().insert(connection_id);
+                allocs.borrow_mut().push((connection_id, format!("pair {case}: IncomingConnection at node {i}")))
+            }
+            SwarmEvent::IncomingConnectionError { connection_id, .. } => {
+                denied.set(denied.get() + 1);
+                // an inbound connection refused at the pending stage is only ever reported through this event
+                if !announced.borrow().contains(&connection_id) {
+                    allocs.borrow_mut().push((connection_id, format!("pair {case}: IncomingConnectionError (refused before IncomingConnection) at node {i}")));
+                }
+            }
+            SwarmEvent::OutgoingConnectionError { .. } => denied.set(denied.get() + 1),
+            _ => {}
+        };
+        for k in 0..rng.range(6, 20) {
+            let i = rng.usize(2);
+            let a = match rng.usize(5) {
+                0 => mem(9001),
+                _ => mem(100 + (1 - i) as u64),
+            };
+            let o = DialOpts::unknown_peer_id().address(a).build();
+            allocs.borrow_mut().push((o.connection_id(), format!("pair {case}: dial #{k} built for node {i}")));
+            let _ = net.swarm(i).dial(o);
+            net.touch(i);
+            net.run(rng.range(0, 60), &mut sink);
+        }
+        net.run(100_000, &mut sink);
+        denied_total += denied.get();
+        for (id, what) in allocs.into_inner() {
+            total += 1;
+            if let Some(first) = seen.insert(id, what.clone()) {
+                check.violation("duplicate-connection-id", format!("connection id {id} handed out twice (single-threaded): {first}; then {what}"), json!({"id": id.to_string(), "first": first, "second": what}));
+            }
+        }
+    }
+    check.cases(total);
+    check.count("sequential_phase_ids", total);
+    check.count("sequential_phase_failed_or_denied_connections", denied_total);
 }
